@@ -172,7 +172,15 @@ class Gen:
             b, kb = self.num(st, d + 1, None, nonnull or ("minmax_null" not in self.p.allow))
             m = rng.choice(["maximum", "minimum", "fmax", "fmin"])
             return ["m", m, a, [b]], ("i" if ka == "i" and kb == "i" else "f")
-        if r < 0.95 and not nonnull:
+        if r < 0.935:
+            scols = self.nonnull_cols(st, ("s",))
+            if scols:
+                # a lookup table: string column -> number, with a default for unlisted values
+                keys = rng.sample(core.STR_POOL, rng.randint(1, min(3, len(core.STR_POOL))))
+                items = [[k, rng.choice([1.0, 2.5, -3.0, 10.0, 0.5])] for k in keys]
+                self.cnt("expr:mapv")
+                return ["m", "mapv", ["col", rng.choice(scols)], [["dict", items], ["lit", rng.choice([0.0, -1.0, 99.0])]]], "f"
+        if r < 0.965 and not nonnull:
             a, ka = self.num(st, d + 1, None, False)
             k = ka
             return ["m", "coalesce", a, [self.lit(k)]], k
